@@ -352,10 +352,13 @@ func parseClassSet(sc *scanner) class {
 			}
 			fallthrough
 		case '-':
-			if len(set.Classes) > 0 {
-				sc.Next()
-				isrange = true
-				continue
+			// a range starts only after a plain character (lstrlib: "[%a-z]" is %a, '-', 'z'; "[a--]" is a..'-')
+			if len(set.Classes) > 0 && !isrange {
+				if _, ok := set.Classes[len(set.Classes)-1].(*charClass); ok {
+					sc.Next()
+					isrange = true
+					continue
+				}
 			}
 			fallthrough
 		default:
